@@ -14,6 +14,7 @@ An FPy value is one of::
 Python boundary; :func:`from_value` converts back.
 """
 
+from enum import Enum
 from fractions import Fraction
 from typing import Any, TypeAlias
 
@@ -86,6 +87,10 @@ def to_value(arg: Any) -> Value:
             return arg
         case RealFloat():
             return Float.from_real(arg, ctx=REAL)
+        case Enum():
+            # an `IntEnum` member (e.g. `EFloatNanKind`) is an `int`, but it is
+            # an opaque option, not a number
+            return Foreign(arg)
         case int():
             return Float.from_int(arg, ctx=INTEGER, checked=False)
         case float():
